@@ -321,6 +321,42 @@ def functor_renaming(rep, tier):
   rep.coverage['evaluations'] = rep.coverage.get('evaluations', 0) + runs
 
 
+def mixed_aggregation_heads(rep, tier):
+  """Rules of one predicate whose heads aggregate differently (another operator, aggregated vs plain, distinct vs
+  not): whatever the compiler makes of it, the two orders of the rules must give the same outcome."""
+  from vlib import logica_run
+  r = common.rng('c07-mixed-heads')
+  ops = ['Max', 'Min', 'Sum', 'Count', 'List']
+  runs = bad = 0
+  for it in range(12 if tier == 'quick' else 120):
+    o1, o2 = r.sample(ops, 2)
+    kind = ['operators', 'operators', 'agg-vs-plain', 'distinct-vs-not'][it % 4]
+    if kind == 'operators':
+      rules = ['M(k: "k", v? %s= a) distinct :- A(a);' % o1, 'M(k: "k", v? %s= b) distinct :- B(b);' % o2]
+    elif kind == 'agg-vs-plain':
+      rules = ['M(k: "k", v? %s= a) distinct :- A(a);' % o1, 'M(k: "k", v: b) distinct :- B(b);']
+    else:
+      rules = ['M(k: "k", v: a) distinct :- A(a);', 'M(k: "k", v: b) :- B(b);']
+    facts = ''.join('A(%d);\n' % r.randint(1, 9) for _ in range(3)) + ''.join('B(%d);\n' % r.randint(1, 9) for _ in range(3))
+    outs = []
+    for order in (rules, rules[::-1]):
+      t = '@Engine("sqlite");\n' + facts + '\n'.join(order) + '\n'
+      st, a, b = logica_run.run_pred(t, 'M')
+      runs += 1
+      # a rejection is a rejection: which of the four diagnostic classes reports it may depend on which rule is seen first
+      st = 'rejected' if st in logica_run.DIAGNOSTIC else st
+      outs.append((st, sorted(map(repr, b)) if st == 'ok' else None, t))
+    if (outs[0][0], outs[0][1]) != (outs[1][0], outs[1][1]) and bad < 2:
+      bad += 1
+      rep.violation('mixed-aggregation-heads:%s' % kind, {
+          'program_text': outs[0][2], 'observed': list(outs[0][:2]), 'program_text_other_order': outs[1][2],
+          'observed_other_order': list(outs[1][:2]), 'predicate': 'M',
+          'law': 'the order of the rules of a predicate does not change the outcome (rows, or the class of the diagnostic)',
+          'how': 'vlib.logica_run.run_pred(program_text, "M")'})
+  rep.coverage['mixed_head_runs'] = runs
+  rep.coverage['evaluations'] = rep.coverage.get('evaluations', 0) + runs
+
+
 def run(tier, replay=None):
   rep = common.Report(PID, tier, 'other')
   if replay and K.replay_program_rows(rep, replay):
@@ -351,4 +387,5 @@ def run(tier, replay=None):
     unnest_order(rep, tier)
     long_name_probe(rep)
     functor_renaming(rep, tier)
+    mixed_aggregation_heads(rep, tier)
   return rep.finish()
